@@ -908,6 +908,10 @@ func (ck *Check) emptinessShape(rule string) {
 		fn := a.PodsRemaining
 		outerFn := fn
 		ctx := ck.P.NewCtx(fn)
+		// the count in a method of a small counter value the function delegates to
+		if g, ch := ck.delegate(fn); g != nil {
+			fn, ctx = g, ch
+		}
 		var rets []*ssa.Return
 		for _, b := range fn.Blocks {
 			if r, ok := b.Instrs[len(b.Instrs)-1].(*ssa.Return); ok {
